@@ -1,5 +1,12 @@
 /- C05 property theorems (see DESIGN §4 C05).  Helper lemmas are in Lemmas.lean. -/
 import TetlProofs.C05.Lemmas
+import TetlProofs.C05.Inventory
+import TetlProofs.C05.SvInsert
+import TetlProofs.C05.SvErase
+import TetlProofs.C05.StrBits
+import TetlProofs.C05.StrIndex
+import TetlProofs.C05.CarriedAudit
+import TetlProofs.C05.Scalar
 namespace Tetl.C05.Props
 open Tetl.C05 Tetl.C05.Spec Tetl.C05.Lemmas
 
@@ -9,44 +16,71 @@ open Tetl.C05 Tetl.C05.Spec Tetl.C05.Lemmas
 theorem sites_accounted : inventory = Carried.guardSites := by decide +kernel
 
 /-- every key a model operation can raise is an inventoried site -/
-theorem model_keys_inventoried : Carried.modelKeys.all (fun k => (Carried.guardSites.map (·.1)).contains k) = true := by
-  decide +kernel
+theorem model_keys_inventoried : Carried.modelKeys.all (fun k => (Carried.guardSites.map (·.1)).contains k) = true :=
+  ca_all_keys
 
-/-- the sites carried without a model operation are exactly the 9 of linalg / format / to_string -/
-theorem unmodelled_count : Carried.unmodelled.length = 9 := by decide +kernel
+/-- the sites carried without a model operation are exactly the 2 internal checks of format_to -/
+theorem unmodelled_count : Carried.unmodelled.length = 2 := ca_unmodelled
 
-/-- operations whose equation model = spec is proved below (the others are compared by the correspondence run only) -/
+/-- operations whose equation model = spec is proved below: every operation of the model language (`Proved_all`).
+    Kept as a function so that a new operation without a theorem has to be listed here explicitly. -/
 def Proved : Op → Bool
   | .svAt _ | .svFront | .svBack _ => true
   | .svPush _ _ | .svEmplaceBack _ _ | .svPop _ | .svClear _ => true
+  | .svInsertN _ _ _ _ | .svInsertCr _ _ _ | .svInsertMv _ _ _ | .svEmplace _ _ _ | .svInsertRng _ _ _ _ => true
+  | .svErase _ _ | .svEraseRng _ _ _ | .svResize _ _ | .svResizeV _ _ _ | .svAssignN _ _ _ | .svAssignRng _ _ _ => true
+  | .svCtorN _ _ | .svCtorNV _ _ _ | .svCtorRng _ _ _ => true
   | .ivFront _ | .ivBack _ | .ivAt _ _ | .ivEmplaceBack _ | .ivPush _ _ | .ivPop => true
   | .vwAt _ | .vwFront | .vwBack | .vwRemovePrefix _ | .vwRemoveSuffix _ | .vwCopy _ _ | .vwSubstr _ _ => true
   | .spAt _ | .spFront | .spBack | .spFirst _ | .spLast _ | .spSubspan _ _ => true
-  | .arAt _ _ => true
+  | .spFirstT _ | .spLastT _ | .spSubspanT _ _ | .spCtorExt _ _ => true
+  | .arAt _ _ | .arFront _ | .arBack _ => true
   | .strCtorFill _ _ | .strOpAssign _ | .strAssignFill _ _ | .strFront _ | .strBack _ | .strAt _ _ | .strPop => true
+  | .strCtorPtr _ _ | .strAssignPtr _ _ | .strPush _ | .strEraseRng _ _ | .strReplace _ _ _ _ | .strReplaceSub _ _ _ _ _ => true
+  | .strInsert _ _ _ | .strInsertFill _ _ _ | .strEraseIdx _ _ => true
+  | .bb _ _ _ | .bs _ _ _ | .bsCtor _ _ _ | .nullChecks _ => true
   | .optDeref _ | .expDeref _ | .expError _ | .varIdx _ _ | .varGet _ _ => true
-  | .bit _ _ _ | .divSat _ | .dayCtor _ | .monthCtor _ | .stride _ _ | .setCtor _ _ => true
-  | _ => false
+  | .bit _ _ _ | .divSat _ _ | .dayCtor _ | .monthCtor _ | .stride _ _ | .setCtor _ _ => true
+
+
+theorem Proved_all (op : Op) : Proved op = true := by cases op <;> rfl
+
+/-- the input class of known finding F-C05-replace-pre for `replace(pos, count, ...)`: valid by the documented
+    precondition `pos <= size()` but rejected by tetl's checks `pos < size()` and `pos + count < size()` -/
+def ReplaceExcluded (s : St) (pos count : Nat) : Prop := pos ≤ s.size ∧ ¬ pos + count < s.size
+instance (s : St) (pos count : Nat) : Decidable (ReplaceExcluded s pos count) := by unfold ReplaceExcluded; infer_instance
 
 /-- well-formedness of (configuration, object, operation): the class invariant `size ≤ capacity`, `size_t` arguments,
-    the storage base of a static_vector matches its capacity, an engaged expected/variant holds exactly one object, the one-member chrono classes have room for their member,
-    and `array::operator[]` is only claimed where its check is compiled in (SAFE) or the index is valid. -/
+    the storage base of a static_vector matches its capacity, an engaged expected/variant holds exactly one object, the one-member chrono classes have room for their member, the bit position is a value of the word type, the operands of div_sat are `int` values,
+    `array::operator[]` is only claimed where its check is compiled in (SAFE, or a zero-size array) or the index is valid,
+    a freshly constructed static_vector is empty, the units inserted into an inplace_string fit (insert clamps silently
+    otherwise), and the `replace` overloads are claimed outside the class of known finding F-C05-replace-pre
+    (`ReplaceExcluded`) and without size_t wrap of `pos + count` / `pos2 + count2`. -/
 def WF (cfg : Cfg) (s : St) : Op → Prop
   | .svAt i => i < U64
   | .svBack _ => s.size < U64
   | .svPush st _ | .svEmplaceBack st _ => StorOk st s ∧ s.cap < U64
-  | .svPop st | .svClear st => StorOk st s
-  | .arAt _ i => cfg.safe = true ∨ i < s.size
+  | .svPop st | .svClear st | .svErase st _ | .svEraseRng st _ _ => StorOk st s
+  | .svInsertN st _ _ _ | .svInsertCr st _ _ | .svInsertMv st _ _ | .svEmplace st _ _ | .svInsertRng st _ _ _
+  | .svResize st _ | .svResizeV st _ _ | .svAssignN st _ _ | .svAssignRng st _ _ => StorOk st s ∧ s.cap < U64
+  | .svCtorN st _ | .svCtorNV st _ _ | .svCtorRng st _ _ => StorOk st s ∧ s.cap < U64 ∧ s.elems = []
+  | .arAt _ i => cfg.safe = true ∨ i < s.size ∨ s.size = 0
+  | .strReplace _ pos count _ => ¬ ReplaceExcluded s pos count
+  | .strReplaceSub pos count src pos2 count2 => (pos + count < U64 ∧ pos2 + count2 < U64) ∧ (pos ≠ s.size ∧ pos2 ≠ src.length)
+  | .strInsert _ _ xs => s.size + xs.length ≤ s.cap
+  | .strInsertFill _ count _ => s.size + count ≤ s.cap
   | .expDeref _ | .expError _ | .varIdx _ _ | .varGet _ _ => s.size = 1
   | .dayCtor _ | .monthCtor _ => 1 ≤ s.cap
+  | .bit _ w pos => pos < 2 ^ w
+  | .divSat x y => (SC.I32min ≤ x ∧ x ≤ SC.I32max) ∧ (SC.I32min ≤ y ∧ y ≤ SC.I32max)
   | _ => s.Inv
 
 /-- Model = specification, for every configuration, object and argument (no bound): the run of the guard-carrying
     model is the handler at the site of the first violated documented clause with the object unchanged, or the
     specified result - never an out-of-range access. -/
-theorem run_eq_expect (op : Op) (cfg : Cfg) (s : St) (hp : Proved op = true) (h : WF cfg s op) :
+theorem run_eq_expect (op : Op) (cfg : Cfg) (s : St) (_hp : Proved op = true) (h : WF cfg s op) :
     run op cfg s = expect op cfg s := by
-  cases op <;> simp only [Proved, Bool.false_eq_true] at hp <;> simp only [WF] at h
+  cases op <;> simp only [WF] at h
   case svAt i => exact svAt_eq i cfg s h
   case svFront => exact svFront_eq cfg s
   case svBack k => exact svBack_eq k cfg s h
@@ -54,6 +88,20 @@ theorem run_eq_expect (op : Op) (cfg : Cfg) (s : St) (hp : Proved op = true) (h 
   case svEmplaceBack st v => exact svEmplaceBack_eq st v cfg s h.1 h.2
   case svPop st => exact svPop_eq st cfg s h
   case svClear st => exact svClear_eq st cfg s h
+  case svInsertN st p n v => exact svInsertN_eq st p n v cfg s h.1 h.2
+  case svInsertCr st p v => exact svInsertCr_eq st p v cfg s h.1 h.2
+  case svInsertMv st p v => exact svInsertMv_eq st p v cfg s h.1 h.2
+  case svEmplace st p v => exact svEmplace_eq st p v cfg s h.1 h.2
+  case svInsertRng st p xs o => exact svInsertRng_eq st p xs o cfg s h.1 h.2
+  case svErase st p => exact svErase_eq st p cfg s h
+  case svEraseRng st f l => exact svEraseRng_eq st f l cfg s h
+  case svResize st n => exact svResize_eq st n cfg s h.1 h.2
+  case svResizeV st n v => exact svResizeV_eq st n v cfg s h.1 h.2
+  case svAssignN st n v => exact svAssignN_eq st n v cfg s h.1 h.2
+  case svAssignRng st xs o => exact svAssignRng_eq st xs o cfg s h.1 h.2
+  case svCtorN st n => exact svCtorN_eq st n cfg s h.1 h.2.1 h.2.2
+  case svCtorNV st n v => exact svCtorNV_eq st n v cfg s h.1 h.2.1 h.2.2
+  case svCtorRng st xs o => exact svCtorRng_eq st xs o cfg s h.1 h.2.1 h.2.2
   case ivFront k => exact ivFront_eq k cfg s
   case ivBack k => exact ivBack_eq k cfg s
   case ivAt k i => exact ivAt_eq k i cfg s
@@ -73,7 +121,26 @@ theorem run_eq_expect (op : Op) (cfg : Cfg) (s : St) (hp : Proved op = true) (h 
   case spFirst a => exact spFirst_eq a cfg s
   case spLast a => exact spLast_eq a cfg s
   case spSubspan a b => exact spSubspan_eq a b cfg s
+  case spFirstT a => exact spFirstT_eq a cfg s
+  case spLastT a => exact spLastT_eq a cfg s
+  case spSubspanT a b => exact spSubspanT_eq a b cfg s
+  case spCtorExt k e => exact spCtorExt_eq k e cfg s
   case arAt k i => exact arAt_eq k i cfg s h
+  case arFront k => exact arFront_eq k cfg s
+  case arBack k => exact arBack_eq k cfg s
+  case strCtorPtr xs n => exact strCtorPtr_eq xs n cfg s
+  case strAssignPtr xs n => exact strAssignPtr_eq xs n cfg s
+  case strPush ch => exact strPush_eq ch cfg s h
+  case strEraseRng a d => exact strEraseRng_eq a d cfg s h
+  case strReplace k pos count src => exact strReplace_eq k pos count src cfg s h
+  case strReplaceSub pos count src pos2 count2 => exact strReplaceSub_eq pos count src pos2 count2 cfg s h.1 h.2
+  case strInsert k i xs => exact strInsert_eq k i xs cfg s h
+  case strInsertFill i n ch => exact strInsertFill_eq i n ch cfg s h
+  case strEraseIdx i n => exact strEraseIdx_eq i n cfg s h
+  case bb w p v => exact bb_eq w p v cfg s
+  case bs w p v => exact bs_eq w p v cfg s
+  case bsCtor p n b => exact bsCtor_eq p n b cfg s
+  case nullChecks ks => exact nullChecks_eq ks cfg s
   case strCtorFill n ch => exact strCtorFill_eq n ch cfg s
   case strOpAssign xs => exact strOpAssign_eq xs cfg s
   case strAssignFill n ch => exact strAssignFill_eq n ch cfg s
@@ -86,8 +153,8 @@ theorem run_eq_expect (op : Op) (cfg : Cfg) (s : St) (hp : Proved op = true) (h 
   case expError k => exact expError_eq k cfg s h
   case varIdx k i => exact varIdx_eq k i cfg s h
   case varGet k i => exact varGet_eq k i cfg s h
-  case bit wh w p => exact bit_eq wh w p cfg s
-  case divSat y => exact divSat_eq y cfg s
+  case bit wh w p => exact bit_eq wh w p cfg s h
+  case divSat x y => exact divSat_eq x y cfg s h.1 h.2
   case dayCtor d => exact dayCtor_eq d cfg s h
   case monthCtor d => exact monthCtor_eq d cfg s h
   case stride l r => exact stride_eq l r cfg s
@@ -124,10 +191,34 @@ theorem valid_never_asserts (op : Op) (cfg : Cfg) (s : St) (hp : Proved op = tru
 example : WF ⟨true⟩ ⟨4, [7, 8, 9], 0⟩ (.vwSubstr 3 5) ∧ pre ⟨true⟩ ⟨4, [7, 8, 9], 0⟩ (.vwSubstr 3 5) = true :=
   ⟨by simp [WF, St.Inv], by decide⟩
 
+/-- non-vacuity of the larger well-formedness conditions (samples): a static_vector<int, 3>{1, 2} insert, a fresh
+    object for the sized constructor, a fitting string insert, a replace outside the excluded class -/
+example : WF ⟨false⟩ ⟨3, [1, 2], 0⟩ (.svInsertN .triv 1 (U64 - 1) 7) ∧ pre ⟨false⟩ ⟨3, [1, 2], 0⟩ (.svInsertN .triv 1 (U64 - 1) 7) = false :=
+  ⟨by simp only [WF, StorOk, St.Inv]; decide, by decide⟩
+example : WF ⟨true⟩ ⟨3, [], 0⟩ (.svCtorNV .nontriv 3 9) ∧ pre ⟨true⟩ ⟨3, [], 0⟩ (.svCtorNV .nontriv 3 9) = true :=
+  ⟨by simp only [WF, StorOk, St.Inv]; decide, by decide⟩
+example : WF ⟨false⟩ ⟨4, [97, 98], 0⟩ (.strInsert 2 1 [120, 121]) ∧ pre ⟨false⟩ ⟨4, [97, 98], 0⟩ (.strInsert 2 1 [120, 121]) = true :=
+  ⟨by simp only [WF]; decide, by decide⟩
+
+example : WF ⟨false⟩ ⟨0, [], 0⟩ (.divSat SC.I32min (-1)) ∧ pre ⟨false⟩ ⟨0, [], 0⟩ (.divSat SC.I32min (-1)) = true ∧
+    WF ⟨false⟩ ⟨0, [], 0⟩ (.bit 2 8 255) ∧ pre ⟨false⟩ ⟨0, [], 0⟩ (.bit 2 8 255) = false :=
+  ⟨by simp only [WF]; decide, by decide, by simp only [WF]; decide, by decide⟩
+
+/-- F-C05-replace-pre, the provable part: a `replace(pos, count, ...)` call outside the excluded class
+    (`pos + count < size()`, hence valid) returns the specified result and never reaches the handler. -/
+theorem replace_valid_partial (k pos count : Nat) (src : List Int) (cfg : Cfg) (s : St) (hx : ¬ ReplaceExcluded s pos count)
+    (hok : pre cfg s (.strReplace k pos count src) = true) :
+    run (.strReplace k pos count src) cfg s =
+      .ok [] (withElems s (overwriteAt s.elems pos (src.take (min (min count (s.size - pos)) src.length)))) :=
+  valid_never_asserts (.strReplace k pos count src) cfg s rfl hx hok
+
+example : ¬ ReplaceExcluded ⟨20, [97, 98, 99], 0⟩ 1 1 ∧ pre ⟨false⟩ ⟨20, [97, 98, 99], 0⟩ (.strReplace 1 1 1 [120, 121]) = true :=
+  ⟨by decide, by decide⟩
+
 /-- Known finding F-C05-replace-pre: `replace(pos, count, s, count2)` with `pos + count == size()` is valid by the
     documented precondition `pos <= size()` but the model (as the code) invokes the handler. -/
 theorem replace_counterexample :
-    pre ⟨false⟩ ⟨20, [97, 98, 99], 0⟩ (.strReplace 1 1 2 [120, 121]) = true ∧
+    ReplaceExcluded ⟨20, [97, 98, 99], 0⟩ 1 2 ∧ pre ⟨false⟩ ⟨20, [97, 98, 99], 0⟩ (.strReplace 1 1 2 [120, 121]) = true ∧
     run (.strReplace 1 1 2 [120, 121]) ⟨false⟩ ⟨20, [97, 98, 99], 0⟩ = .assert (STR.kReplCnt 1) ⟨20, [97, 98, 99], 0⟩ := by
   decide
 
